@@ -1,4 +1,5 @@
 #!/bin/bash
+export VERIF_EVIDENCE_DIR=$(mktemp -d /tmp/evid.XXXX)   # runs on patched trees must not overwrite the committed evidence
 # re-run the checks of every kept seeded change against /repo with the patch applied (and undo it)
 cd /verif
 for d in seeded/*/; do
